@@ -35,6 +35,9 @@ def build_cases(ctx, n):
         for ser in ("flat", "general"):
             enc = rng.choice(list(R.ENCS))
             valid.append(E.build(rng, alg, enc, ser, b"attack at dawn", aad=rng.choice([None, b"aad"]), kn=E.key_name(alg, enc, rng), alg_in="recipient"))
+    for alg, enc in (("A128KW", "A128GCM"), ("dir", "A128CBC-HS256"), ("RSA-OAEP", "A256GCM")):
+        for ser in ("flat", "general"):
+            valid.append(E.build(rng, alg, enc, ser, E.DEFLATE_LOOKING, aad=rng.choice([None, b"aad"]), kn=E.key_name(alg, enc, rng)))
     cases = list(valid)
     for c in valid:
         cases += E.tamper(c, rng, valid)
@@ -76,6 +79,11 @@ def run(ctx):
             return f"a JWE built per the RFCs ({case.meta['alg']}/{case.meta['enc']}) was rejected: {impl[1]}"
         if case.note == "valid" and impl[1][0] != case.meta["plaintext"]:
             return "decryption returned a plaintext different from the one encrypted"
+        if case.note.startswith("benign"):
+            # an edit outside everything the tag covers and outside what steers decryption: same plaintext or an error
+            if impl[0] == "ok" and impl[1][0] != case.meta["plaintext"]:
+                return f"an unauthenticated member ({case.note}) changed the plaintext that is returned"
+            return None
         if case.note != "valid" and impl[0] == "ok" and not case.note.startswith("splice"):
             return f"a tampered JWE ({case.note}) was decrypted"
         return None
